@@ -2,7 +2,8 @@
 from . import gen
 
 # few names, sharing prefixes, with characters that sort below '/' ('-', '.', '+')
-UNI_NAMES = ["a", "a-b", "a.b", "a+b", "ab", "b", "oph", "ophelia", "x_rig", "B", "rig", "cafe\u0301", "\U0001F600hero", "Ophelia", "\u212bngstrom"]
+UNI_NAMES = ["a", "a-b", "a.b", "a+b", "ab", "b", "oph", "ophelia", "x_rig", "B", "rig", "cafe\u0301", "\U0001F600hero", "Ophelia", "\u212bngstrom",
+             "sword2", "sword10", "sofa", "tiara", "a1", "a01"]       # (digit runs order differently as numbers and as strings)
 
 
 def leaf_templates(model, vocab):
@@ -18,7 +19,11 @@ def leaf_templates(model, vocab):
 
 def gen_universe(rng, model, vocab, n_leaves=40, names=None, all_levels=True):
     """Returns sorted list of concrete entity strings: leaves + (optionally) some deeper/shallower-only entities."""
-    names = names or rng.sample(UNI_NAMES, rng.randint(2, 5))
+    if not names:
+        names = rng.sample(UNI_NAMES, rng.randint(2, 5))
+        if rng.random() < 0.3:
+            # two names whose digit runs order differently as numbers and as strings (the statement says: compared as strings)
+            names = names[:3] + rng.choice([["sword2", "sword10"], ["a1", "a01", "a2"], ["v9", "v10"]])
     leaves = leaf_templates(model, vocab)
     ents = set()
     tries = 0
